@@ -51,7 +51,7 @@ func init() {
 		Run: runBuilderCopy,
 	})
 	register(&Rule{
-		ID: "C20.set-storage", Prop: "C20", Also: []string{"C03"}, Floor: 8, Controls: 1,
+		ID: "C20.set-storage", Prop: "C20", Also: []string{"C03", "C19"}, Floor: 8, Controls: 1,
 		Doc: "every function returning a set (set.Set, ValueSet, PathSet) returns one whose hash-bucket map is fresh, and no bucket slice of one set is stored into another set's map without a copy while Add appends to buckets in place",
 		Run: runSetStorage,
 	})
